@@ -13,14 +13,14 @@ LEVEL = "exploration"
 RULE = (
     "operations = {lint (Linter.lint_paths), parse (parse_path), render (render_file), lint with disable_noqa_except=LT01, CLI `lint`} x 4 files "
     "(plain fixable with a noqa comment; Jinja with if/for blocks; placeholder-templated file in a sub-directory with its own .sqlfluff; "
-    "inline-dialect tsql file) = 20 operations; EVERY history of length <= 2 (thorough: <= 3) is executed in a fresh child of a pristine "
+    "inline-dialect tsql file) + {lint, lint with disable_noqa_except, CLI lint} x a file with glob noqa comments on an unparsable line = 23 operations; EVERY history of length <= 2 (thorough: <= 3) is executed in a fresh child of a pristine "
     "zygote on a fresh copy of the project. Oracle after every operation: bytes, mtime, inode and mode of every project file unchanged, no "
     "file created or left behind; the operation's result (violation records / tree / rendered text / exit code) equals the result of the "
     "same operation in a fresh process. Non-trivial = history of length >= 2."
 )
 ASSUMPTIONS = ["process-wide state that could leak (block tracker, config caches, dialect registry, reference maps, logging) is observed only through results, as the statement requires"]
-BOUND = {"quick": "20 ops: all 420 histories of length <= 2", "thorough": "all 8420 histories of length <= 3"}
-FLOOR = {"quick": 300, "thorough": 6000}
+BOUND = {"quick": "23 ops: all 552 histories of length <= 2", "thorough": "all 12719 histories of length <= 3"}
+FLOOR = {"quick": 400, "thorough": 9000}
 CHUNK = 1
 TIMEOUT = 900  # per case; fresh child processes are slow when the machine is loaded
 
@@ -29,10 +29,12 @@ FILES = {
     "jinja.sql": "SELECT {% if c %}a{% else %}b{% endif %} {% for x in [1, 2] %}, {{ x }}{% endfor %}  FROM t\n",
     "ph/ph.sql": "SELECT a  FROM t WHERE b = :p\n",
     "tsql.sql": "-- sqlfluff:dialect:tsql\nSELECT [a]  from t\n",
+    # glob noqa on a line with a parse error: what a glob expands to depends on the rule reference map
+    "glob.sql": "SELECT a b c FROM t -- noqa: P*,L*\nSELECT b  FROM u -- noqa: C*\n",
 }
 FNAMES = list(FILES)
 OPKINDS = ["lint", "parse", "render", "lint_dne", "cli_lint"]
-OPS = [(k, f) for k in OPKINDS for f in FNAMES]
+OPS = [(k, f) for k in OPKINDS for f in FNAMES if f != "glob.sql" or k in ("lint", "lint_dne", "cli_lint")]
 
 
 def cases(tier):
